@@ -15,7 +15,7 @@ use std::path::Path;
 
 pub const CHECK: Check = Check { id: "C17", level: "exploration", flavours: &["prod"], run, replay };
 
-const RULE: &str = "cases = (file tree: empty files, nested directories given as directory arguments, unicode / space / dash names, sizes \
+const RULE: &str = "cases = (file tree: empty files, nested directories given as directory arguments, unicode / space / dash names, paths longer than 100 and 200 bytes, sizes \
 incl. around 128 KiB and 4 MiB; layer options; compression level; 1..3 key pairs made by `mlar keygen`; pipeline of 0..2 \
 further stages among convert(other layers / keys / level) and repair(intact archive), then negative runs) executed with the \
 `mlar` binary built from the tree. Oracle after `create` and after every stage: `list` prints exactly the given paths; \
@@ -61,7 +61,14 @@ pub struct Case {
 }
 
 const NAMES: [&str; 8] = ["plain", "with space", "ünï-cödé_名", "-dash", "x.tar.gz", "UPPER", "a'b", "dot.."];
-const DIRS: [&str; 3] = ["", "sub dir", "sub dir/deeper-é"];
+const DIRS: [&str; 5] = [
+    "",
+    "sub dir",
+    "sub dir/deeper-é",
+    // paths longer than the 100-byte name field of a tar header
+    "a-rather-long-directory-name-0123456789-0123456789-0123456789/and-a-second-long-level-0123456789-0123456789-0123456789",
+    "deep/deeper/deepest/ünï-cödé-名前-名前-名前-名前-名前-名前-名前-名前-名前-名前/0123456789012345678901234567890123456789012345678901234567890123456789/x/y/z",
+];
 
 fn size_of(class: u8, seed: u16) -> usize {
     match class % 10 {
@@ -353,7 +360,7 @@ fn oracle(c: &Case, st: &mut Stats) -> Result<(), String> {
     st.label(format!("create-layers={}", cur.layers));
     st.label(format!("stages={}", c.stages.len()));
     st.label(format!("negative-kind={why}"));
-    let has_special = c.files.iter().any(|f| size_of(f.size, f.seed) == 0 || f.dir % 3 != 0);
+    let has_special = c.files.iter().any(|f| size_of(f.size, f.seed) == 0 || f.dir as usize % DIRS.len() != 0);
     if c.stages.len() >= 1 && has_special {
         st.nontrivial(util::hash64(format!("{c:?}").as_bytes()));
     }
@@ -372,7 +379,7 @@ fn opts() -> impl Strategy<Value = Opts> {
 
 fn case() -> impl Strategy<Value = Case> {
     (
-        prop::collection::vec((0u8..3, 0u8..8, 0u8..10, any::<u16>()).prop_map(|(dir, name, size, seed)| FileSpec { dir, name, size, seed }), 1..7),
+        prop::collection::vec((0u8..5, 0u8..8, 0u8..10, any::<u16>()).prop_map(|(dir, name, size, seed)| FileSpec { dir, name, size, seed }), 1..7),
         any::<bool>(),
         opts(),
         prop::collection::vec(prop_oneof![opts().prop_map(Stage::Convert), opts().prop_map(Stage::Repair)], 0..=2),
